@@ -18,7 +18,7 @@ CONSTANTS NNodes,     \* number of nodes of the base document
           FirstStride,\* ... and only after a first mutation at a node n with n % FirstStride = Seed % FirstStride
           VarStride,  \* the non-default run configurations (other entry points, switch off, YAML) of a tree operator only at nodes n with n % VarStride = Seed % VarStride
           SparseStride, \* sparse bases are mutated only at nodes n with n % SparseStride = Seed % SparseStride
-          RefStride,  \* reference operators (27 of them, in families of near relatives) only at nodes n with n % RefStride = Seed % RefStride
+          RefStride,  \* reference operators (27 of them, in families of near relatives) only at nodes n with (n \div 6) % RefStride = Seed % RefStride
           NumStride,  \* numeric keyword operators only at schema slots n with n % NumStride = Seed % NumStride
           LexStride,  \* lexical operators only at nodes n with n % LexStride = Seed % LexStride (a seeded slice of the nodes)
           Seed
@@ -157,7 +157,9 @@ Mutate(op, n) ==
    /\ (op \in LexOps => (entry = "data" /\ allow /\ (YamlOnly(op) => yaml) /\ (JsonOnly(op) => ~yaml)))
    /\ base \notin BlobBases                                          \* a blob has no nodes to mutate
    /\ (op \in LexOps => n % LexStride = Seed % LexStride)
-   /\ (op \in RefOps /\ muts = <<>> => n % RefStride = Seed % RefStride)
+   \* (the realiser varies some operators with n modulo 2, 3 or 5 -- pointer with / without fragment, which absent keyword, ... --
+   \*  so the slice takes BLOCKS of six consecutive nodes: every residue occurs in every block)
+   /\ (op \in RefOps /\ muts = <<>> => (n \div 6) % RefStride = Seed % RefStride)
    /\ (op \in SchemaOps /\ muts = <<>> => n <= SchemaSlots)        \* a schema operator goes to schema object (n modulo their number): higher n repeat
    /\ (op \in KeywordOps => (n <= SchemaSlots /\ n % NumStride = Seed % NumStride /\ muts = <<>>))      \* singly, on a slice of the schema objects
    /\ (Len(muts) >= 1 => (op \notin LexOps /\ muts[1].op \notin LexOps))   \* lexical operators singly (the pair level is tree x tree)
